@@ -29,6 +29,11 @@ def check(ctx):
         lc = lifecycle(a, cls)
         hd = handles(a, cls)
         mark_qos0_exception(cat)
+        ctx.ob("X-MODE", "%s the session mode is recorded when connect() is accepted, before any loss can happen" % cq, lc.clean_at_connect,
+               where=where(lc.clean_event) if lc.clean_event is not None else cls.module.path,
+               function=lc.clean_event.func if lc.clean_event is not None else "", construct="session-mode/recorded-at-connect",
+               msg="the field the loss path tests (self.%s) is not assigned from CONNECT's cleanStart on every accepting path of connect(): a connection "
+                   "lost during the handshake is handled with the previous (or default) session mode" % lc.clean)
         ctx.ob("X-SPLIT", "%s loss closure distinguishes clean and persistent sessions" % cq, bool(lc.loss_clean) and bool(lc.loss_persist),
                where=cls.module.path, construct="loss/clean-test", msg="clean paths: %d, persistent paths: %d" % (len(lc.loss_clean), len(lc.loss_persist)))
         for reg in DEFERRED_REGS:
